@@ -996,9 +996,10 @@ def self_emit_fn(em, res, u, rw, qual, sig, body, orig, rel, self_subst, mode, d
     external = u.external.get(qual, False)
     # ---- signature ----
     sig = _drop_docs(sig)
-    for k, v in self_subst.items():
-        sig = re.sub(re.escape(k) + r"\b", v, sig)
-        body = re.sub(re.escape(k) + r"\b", v, body)
+    for _round in range(3):
+        for k, v in self_subst.items():
+            sig = re.sub(re.escape(k) + r"\b", v, sig)
+            body = re.sub(re.escape(k) + r"\b", v, body)
     sig = rw.apply(qual + "#sig", sig)
     if re.search(r"\(\s*mut\s+self\s*[,)]", sig):
         # R21: by-value `mut self` is not supported by Verus: bind it to a mutable local of another name
